@@ -4,14 +4,14 @@ use crate::for_sets;
 use crate::guard::guarded;
 use crate::props::common::*;
 use crate::props::StageOut;
-use crate::rngs::RecordingRng;
+use crate::rngs::{FaultKind, FaultRng, RecordingRng};
 use crate::sets::PS;
 use crate::util::{digest64, hex, par_map, Acc, Prng};
 use crate::Ctx;
 use refimpl as r;
 use serde_json::json;
 
-const RULE: &str = "seeds: all-0, all-FF, 256 single-bit seeds (thorough), random, plus seeds pre-selected by running the instrumented reference over tens of thousands of candidates for rare events (A*s1+s2 wrapping past q or below 0 before reduction, about 1 seed in 10^4; three-byte sample == q or q+-1; a RejBoundedPoly call needing more than two SHAKE256 blocks, found by a SHAKE-only scan of 16x as many candidates); each through KG::keygen_from_seed, the module-level try_keygen_with_rng and KG::try_keygen_with_rng under a recording RNG whose script is seed || random tail. into_bytes() of both keys must equal the reference KeyGen_internal pkEncode/skEncode bytes; RNG log must be one try_fill_bytes(32) consuming exactly the seed; different tails and repeated calls must not change the keys. Non-trivial = distinct seeds for which all three entry points matched the reference.";
+const RULE: &str = "seeds: all-0, all-FF, 256 single-bit seeds (thorough), random, plus seeds pre-selected by running the instrumented reference over tens of thousands of candidates for rare events (A*s1+s2 wrapping past q or below 0 before reduction, about 1 seed in 10^4; three-byte sample == q or q+-1; a RejBoundedPoly call needing more than two SHAKE256 blocks, found by a SHAKE-only scan of 16x as many candidates); each through KG::keygen_from_seed, the module-level try_keygen_with_rng and KG::try_keygen_with_rng under a recording RNG whose script is seed || random tail. into_bytes() of both keys must equal the reference KeyGen_internal pkEncode/skEncode bytes; RNG log must be one try_fill_bytes(32) consuming exactly the seed; different tails and repeated calls must not change the keys; (no other source of variation) the RNG-driven entry points called twice with the same scripted generator that FAILS its request (before writing, after 16 bytes, after the full 32) must give the same outcome both times — two Ok results with different keys mean bytes from somewhere other than the supplied generator (whether an Ok is acceptable at all is C12's question). Non-trivial = distinct seeds for which all three entry points matched the reference.";
 
 pub fn run(ctx: &Ctx) -> StageOut {
     let mut acc = Acc::new();
@@ -138,12 +138,15 @@ fn run_set<S: PS>(ctx: &Ctx) -> Acc {
         tag_names.push(tag);
     }
     let n_rare = rare.len();
+    let mut acc_nv = Acc::new();
+    no_other_source::<S>(&mut acc_nv, &mut g);
     let accs = par_map(seeds.len(), |i| {
         let mut acc = Acc::new();
         check_seed::<S>(&mut acc, &seeds[i].0, seeds[i].1, ctx.seed ^ (i as u64) << 8);
         acc
     });
     let mut acc = Acc::merge_all(accs);
+    acc.merge(acc_nv);
     acc.count("seeds_scanned_for_rare_events", n_scan as u64);
     acc.count("rare_seeds_checked", n_rare as u64);
     for t in ["rare-t-wrap-high", "rare-t-wrap-low", "rare-rbp-over-2-blocks", "rare-rnp-reject-run", "rare-three-byte"] {
@@ -153,4 +156,39 @@ fn run_set<S: PS>(ctx: &Ctx) -> Acc {
         acc.inconclusive(format!("{}: the rare-event scan found no seed", p.name));
     }
     acc
+}
+
+/// "Key generation has no other source of variation": with a generator whose request fails, whatever the
+/// entry point does must be a function of what that generator did. Two identical calls are compared.
+fn no_other_source<S: PS>(acc: &mut Acc, g: &mut Prng) {
+    let p = S::p();
+    for which in 0..2usize {
+        let entry = if which == 0 { "try_keygen_with_rng" } else { "KG::try_keygen_with_rng" };
+        for kind in [FaultKind::Before, FaultKind::AfterPartial(16), FaultKind::AfterFull] {
+            for code in [rand_core::Error::CUSTOM_START + 7, 4u32, 11] {
+                let script = g.bytes(96);
+                let run = |script: &[u8]| {
+                    guarded(|| {
+                        let mut rng = FaultRng::new(script, 0, kind).with_code(code);
+                        let out = if which == 0 { S::keygen_rng(&mut rng) } else { S::keygen_rng_trait(&mut rng) };
+                        out.map(|(pk, sk)| [S::pk_bytes(&pk), S::sk_bytes(&sk)].concat()).map_err(|e| e.to_string())
+                    })
+                };
+                acc.eval();
+                let (a, b) = (run(&script), run(&script));
+                let replay = json!({"kind": "c04-fault-determinism", "set": S::SET, "entry": entry, "fault": format!("{kind:?}"), "code": code, "script": hex(&script)});
+                match (a, b) {
+                    (Ok(a), Ok(b)) => {
+                        if a != b {
+                            acc.violation(&format!("C04|other-source-of-variation|{}|{entry}|{kind:?}", p.name), format!("{entry} called twice with the same failing generator ({kind:?}, code {code}) gave different results: the keys do not depend on the supplied generator alone"), replay);
+                        } else {
+                            acc.count(if a.is_ok() { "failing_rng_same_ok_twice" } else { "failing_rng_err_twice" }, 1);
+                            acc.nontrivial(digest64(&[b"c04-fault", &[S::SET as u8, which as u8], format!("{kind:?}{code}").as_bytes()]));
+                        }
+                    }
+                    (Err(pi), _) | (_, Err(pi)) => panic_violation(acc, "C04", entry, "failing-generator", &pi, replay),
+                }
+            }
+        }
+    }
 }
